@@ -290,13 +290,31 @@ unit(id="set.exec", src="src/instruction/set.rs", path=[("impl", "Exec for Set")
          ("set.exec.binds_after_evaluating_once", ["C07"],
           f"{V_} is Ok ==> r == {V_} && {S9} == st_insert({V_ST}, self.ident, {V_}->Ok_0)"),
      ])
+_LB = "eval_res(self.0.instruction, s0)"
 unit(id="loop.exec", src="src/instruction/loop.rs", path=[("impl", "Exec for Loop"), ("fn", "exec")],
      impl="Loop", stubs=["iws.exec"],
      fn_attrs=["#[verifier::exec_allows_no_decreases_clause]"],
+     # ghost iteration counter: what is known about the FIRST iteration has to be carried as an invariant (loop bodies are checked in isolation)
+     injections=[("loop {\n",
+                  "let ghost s0 = interpreter.st@;\n        let ghost mut n: nat = 0;\n        loop\n"
+                  "            invariant_except_break\n"
+                  f"                n > 0 ==> ({_LB} is Ok || {_LB} == Err::<Variable, ExecStop>(ExecStop::Continue)),\n"
+                  "            invariant\n"
+                  "                s0 == old(interpreter).st@, n == 0 ==> interpreter.st@ == s0,\n"
+                  "            ensures\n"
+                  f"                n >= 1, n == 1 ==> ({_LB} == Err::<Variable, ExecStop>(ExecStop::Break) && interpreter.st@ == eval_st(self.0.instruction, s0)),\n"
+                  f"                n > 1 ==> ({_LB} is Ok || {_LB} == Err::<Variable, ExecStop>(ExecStop::Continue)),\n"
+                  "        {\n            proof { n = n + 1; }\n")],
      ensures=[
          ("loop.exec.value_is_void", ["C12"], f"r is Ok ==> r == {OKV}(Variable::Void)"),
          ("loop.exec.break_continue_do_not_escape", ["C12"],
           "r is Err ==> (r->Err_0 is Return || r->Err_0 is Error)"),
+         # the body runs directly in the loop's own scope (the layer of an iteration belongs to the body's block): when the
+         # first iteration already leaves the loop, the state is the one that iteration left, and the signal / value is its own
+         ("loop.exec.first_iteration_runs_in_the_enclosing_scope_and_its_exit_is_the_loops", ["C12", "C06"],
+          f"(eval_res(self.0.instruction, {S0}) == Err::<Variable, ExecStop>(ExecStop::Break) ==> r == {OKV}(Variable::Void) && {S9} == eval_st(self.0.instruction, {S0})) "
+          f"&& (eval_res(self.0.instruction, {S0}) is Err && (eval_res(self.0.instruction, {S0})->Err_0 is Return || eval_res(self.0.instruction, {S0})->Err_0 is Error) "
+          f"==> r == eval_res(self.0.instruction, {S0}) && {S9} == eval_st(self.0.instruction, {S0}))"),
      ])
 
 # ---------------------------------------------------------------- block / function --------
